@@ -66,6 +66,7 @@ class Contract:
         self.replay_fields: list[str] = []
         self.unmodelled: list[str] = []
         self.present_attrs: list[str] = []
+        self.record_result_specs: dict = {}  # result Spec of recorded calls (e.g. pairs)
         self.record_calls: list[str] = []  # callee texts whose calls are logged as ghost events: appended('<text>')
         self.transparent_with: list[str] = []
         self.dict_keys = "identity"  # or "pyeq": dict displays created by the kernel are keyed by ==/hash
